@@ -105,7 +105,7 @@ func main() {
 	mainPkg := spkgs[0]
 	hfn := mainPkg.Func(*harness)
 	if hfn == nil {
-		fmt.Fprintln(os.Stderr, "no such harness", *harness)
+		fmt.Fprintln(os.Stderr, "no such harness", *harness, "in", mainPkg.Pkg.Path(), "files:", len(pkgs[0].GoFiles), pkgs[0].GoFiles)
 		os.Exit(2)
 	}
 	conf := &Config{maxSteps: *maxSteps, maxDepth: 2000, mapOrder: *mapOrder, prog: prog, mainPkg: mainPkg, hfn: hfn,
